@@ -46,6 +46,23 @@ type scope struct {
 	vars   map[string]interface{}
 	blocks map[string]*blockRef
 	nilMap bool // bottom scope created from a nil VarMap
+	isList bool // the scope of a statement list
+	opened bool // a := has been executed in this list (jet opens list scopes lazily)
+}
+
+// listOpened reports whether the innermost statement list has executed a := yet.
+func (e *env) listOpened() bool { return !e.sc.isList || e.sc.opened }
+
+// outerOfList is the scope jet's Runtime.Let writes to while the list scope has not been opened.
+func (e *env) outerOfList() *scope {
+	sc := e.sc
+	for sc.isList && !sc.opened && sc.parent != nil {
+		sc = sc.parent
+	}
+	if sc.vars == nil {
+		panic(Unspec("Let into a nil VarMap"))
+	}
+	return sc
 }
 
 type content struct {
@@ -324,6 +341,7 @@ func (e *env) list(l []Stmt) {
 		panic(Unspec("recursion too deep"))
 	}
 	e.push()
+	e.sc.isList = true
 	saved := e.sc
 	defer func() { e.depth-- }()
 	for _, s := range l {
@@ -336,6 +354,7 @@ func (e *env) list(l []Stmt) {
 }
 
 func (e *env) declare(name string, v interface{}) {
+	e.sc.opened = true
 	if name == "_" {
 		return
 	}
@@ -455,6 +474,8 @@ func (e *env) stmt(s Stmt) {
 	case *Comment:
 	case *FailStmt:
 		e.fail(s.Class, s)
+	case *API:
+		e.api(s)
 	case *Emit:
 		e.emit(s)
 	case *Assign:
@@ -1084,4 +1105,95 @@ func Truthy(v interface{}) bool {
 		return true
 	}
 	return true
+}
+
+// api gives the documented meaning of the Runtime methods in terms of template syntax.
+func (e *env) api(s *API) {
+	var v interface{}
+	if s.Val != nil {
+		v = e.eval(s.Val)
+	}
+	inScopes := func(name string) bool {
+		for sc := e.sc; sc != nil; sc = sc.parent {
+			if _, ok := sc.vars[name]; ok {
+				return true
+			}
+		}
+		return false
+	}
+	switch s.Op {
+	case "Let": // := in the innermost open scope
+		if e.quirk("api-let-ignores-unopened-list-scope") && !e.listOpened() {
+			e.outerOfList().vars[s.Name] = v
+			return
+		}
+		e.declare(s.Name, v)
+	case "Set": // =
+		e.assign(s.Name, v, s)
+	case "SetOrLet":
+		if inScopes(s.Name) {
+			e.assign(s.Name, v, s)
+			return
+		}
+		if _, ok := e.lookup(s.Name); ok {
+			panic(Unspec("SetOrLet on a name that is only a global or built-in"))
+		}
+		if e.quirk("api-let-ignores-unopened-list-scope") && !e.listOpened() {
+			e.outerOfList().vars[s.Name] = v
+			return
+		}
+		e.declare(s.Name, v)
+	case "LetGlobal": // the outermost template scope
+		sc := e.sc
+		for sc.parent != nil {
+			sc = sc.parent
+		}
+		if sc.vars == nil {
+			panic(Unspec("LetGlobal with a nil VarMap"))
+		}
+		sc.vars[s.Name] = v
+	case "Resolve":
+		val, ok := e.lookup(s.Name)
+		if ok && val != nil {
+			if rv := reflect.ValueOf(val); rv.Kind() == reflect.Func {
+				panic(Unspec("rendering a function value"))
+			}
+			e.out.WriteString(e.esc(Print(val)))
+		}
+	case "MustResolve":
+		val, ok := e.lookup(s.Name)
+		if !ok {
+			e.fail("unknown-identifier", s)
+		}
+		if val != nil {
+			e.out.WriteString(e.esc(Print(val)))
+		}
+	case "Context":
+		if e.ctx != nil {
+			e.out.WriteString(e.esc(Print(e.ctx)))
+		}
+	case "Yield": // {{ yield name() ctx }}, exactly once
+		b := e.getBlock(s.Name)
+		if b == nil {
+			e.fail("unknown-block", s)
+		}
+		if len(b.def.Params) > 0 {
+			panic(Unspec("YieldBlock of a block with parameters"))
+		}
+		if bodyYieldsContent(b.def.Body) {
+			panic(Unspec("YieldBlock of a block that shows content"))
+		}
+		oCtx, oFile := e.ctx, e.file
+		if v != nil {
+			e.ctx = v
+		}
+		e.file = b.file
+		e.blockDepth++
+		func() {
+			defer func() { e.ctx, e.file = oCtx, oFile; e.blockDepth-- }()
+			e.list(b.def.Body)
+		}()
+	default:
+		panic("refjet: api op " + s.Op)
+	}
 }
